@@ -56,7 +56,7 @@ Proof.
           replace (S idx - left)%nat with (S (idx - left)) by lia.
           rewrite (cnt_snoc Nat.eq_dec).
           replace (left + (idx - left))%nat with idx by lia. gu.
-          rewrite (cnt_upd_out Nat.eq_dec 0 arr left (idx - left) idx) by lia.
+          rewrite (cnt_upd_out Nat.eq_dec 0%nat arr left (idx - left) idx) by lia.
           replace (center + 1 - l)%nat with (S (center + 1 - S l)) by lia.
           cbn [cnt]. unfold gt. fold (get arr). lia. }
     (* take from the right run *)
@@ -86,7 +86,7 @@ Proof.
           replace (S idx - left)%nat with (S (idx - left)) by lia.
           rewrite (cnt_snoc Nat.eq_dec).
           replace (left + (idx - left))%nat with idx by lia. gu.
-          rewrite (cnt_upd_out Nat.eq_dec 0 arr left (idx - left) idx) by lia.
+          rewrite (cnt_upd_out Nat.eq_dec 0%nat arr left (idx - left) idx) by lia.
           replace (right + 1 - r)%nat with (S (right + 1 - S r)) by lia.
           cbn [cnt]. unfold gt. fold (get arr). lia. }
     cbn [merge_loop].
@@ -146,7 +146,6 @@ Proof.
     + intros i j ? ? ?. rewrite !F2 by lia. apply S1; lia.
     + exact S2.
     + intros i j ? ? ?. lia.
-    + intros; lia.
     + fold a3 in La3, S3, F3, C3.
       destruct (copy_back_spec (right + 1 - left) p2 a3 left) as [Lc [Ic Oc]]; try lia.
       set (p3 := copy_back (right + 1 - left) p2 a3 left) in *.
@@ -162,7 +161,7 @@ Proof.
         rewrite (cnt_ext Nat.eq_dec (center + 1 - left) (get p2) (get p1)) by (intros; apply F2; lia).
         rewrite C1.
         rewrite (cnt_ext Nat.eq_dec (right + 1 - (center + 1)) (get p1) (get ptr)) by (intros; apply F1; lia).
-        replace (right + 1 - left)%nat with ((center + 1 - left) + (right + 1 - (center + 1)))%nat at 3 by lia.
+        replace (ncnt (get ptr) left (right + 1 - left) x) with (ncnt (get ptr) left ((center + 1 - left) + (right + 1 - (center + 1))) x) by (f_equal; lia).
         rewrite (cnt_split Nat.eq_dec).
         replace (left + (center + 1 - left))%nat with (center + 1)%nat by lia. lia.
   - exists ptr, arr. split; auto. unfold mrec_post. repeat split; auto.
